@@ -1,7 +1,7 @@
 # Native witness for C10 on the file-based cassette: category prefix confusion, metadata filter semantics, absent metadata keys,
 # categories containing '.'.  exit 0: lookup agrees with the in-memory cassette on the same recordings, exit 1: it does not.
 import sys, tempfile, shutil
-sys.path.insert(0, '/repo') if '/repo' not in sys.path else None
+sys.path.insert(0, __import__('os').environ.get('PYVC_REPO', '/repo'))
 from playback.tape_cassettes.file_based.file_based_tape_cassette import FileBasedTapeCassette
 from playback.tape_cassettes.in_memory.in_memory_tape_cassette import InMemoryTapeCassette
 
